@@ -325,6 +325,18 @@ func runC12(c *core.Ctx) {
 				for _, cut := range []int{1, len(raw) / 3, len(raw) / 2, len(raw) - 2} {
 					add(fmt.Sprintf("truncate at %d/%d", cut, len(raw)), raw[:cut])
 				}
+				// something behind the complete document (inside the envelope's payload / behind the whole file)
+				if f.dsse {
+					pb, _ := json.Marshal(f.payload)
+					for _, tail := range []string{" garbage", "}", `{"_type":"layout"}`, "\n[]", ",", "\x00", "null"} {
+						d := gen.DeepCopy(f.doc).(map[string]any)
+						d["payload"] = base64.StdEncoding.EncodeToString(append(append([]byte{}, pb...), tail...))
+						add(fmt.Sprintf("payload: complete document followed by %q", tail), wrapperFile(d))
+					}
+				}
+				for _, tail := range []string{" garbage", "}", "{}", ","} {
+					add(fmt.Sprintf("file: complete document followed by %q", tail), append(append([]byte{}, raw...), tail...))
+				}
 				// type marker
 				for _, tm := range []any{"Link", "LAYOUT", "step", "", "linklayout", nil, json.Number("1")} {
 					pl := gen.DeepCopy(f.payload).(map[string]any)
@@ -665,6 +677,14 @@ func c12Validator(c *core.Ctx, keys []gen.KeyPair, cas []*gen.CA, certFn gen.Fun
 			{"malformed rule in inspection products", func(l *intoto.Layout, s *[]intoto.Signature) {
 				l.Inspect[0].ExpectedProducts = append(l.Inspect[0].ExpectedProducts, []string{"MATCH", "x", "WITH", "BANANAS", "FROM", "s"})
 			}},
+			{"conforming: rule operands that look like keywords", func(l *intoto.Layout, s *[]intoto.Signature) {
+				l.Steps[0].ExpectedMaterials = [][]string{
+					{"MATCH", "*", "IN", "with", "WITH", "PRODUCTS", "FROM", "s"},
+					{"MATCH", "in", "IN", "from", "WITH", "MATERIALS", "IN", "with", "FROM", "match"},
+					{"MATCH", "with", "WITH", "PRODUCTS", "IN", "in", "FROM", "from"},
+					{"ALLOW", "allow"}, {"REQUIRE", "MATCH"}, {"DISALLOW", "with"}, {"CREATE", "in"}, {"DELETE", "from"}, {"MODIFY", "products"},
+				}
+			}},
 			{"malformed rule first in step materials, well-formed rules behind it", func(l *intoto.Layout, s *[]intoto.Signature) {
 				l.Steps[0].ExpectedMaterials = append([][]string{{"PERMIT", "*"}}, append(l.Steps[0].ExpectedMaterials, []string{"ALLOW", "x"}, []string{"DISALLOW", "*"})...)
 			}},
@@ -800,7 +820,7 @@ func init() {
 	core.Register(&core.Property{
 		ID:    "C12",
 		Level: "exploration",
-		Rule: "(A) round trip: seeded links/layouts (hostile strings, nested values, constraints, CA maps; a fifth with absent collections, which the library writes as null; every 41st of several hundred KiB: 1500 products / 2500 rules) x wrapper x 0-2 signatures (legacy: one with certificate), Dump -> LoadMetadata / Metablock.Load: wrapper recognised, payload, signatures and signature validity preserved; (B) labelled single-point corruptions of the dumped JSON: drop/null/retype of the wrapper parts, wrong payload types, undecodable payload, truncations, unknown/odd type markers, drop/rename of every required top-level member, an unknown member at every fixed-schema level, a renamed member at every nested fixed-schema level, a value of another JSON type at every schema-typed node - all must be refused by both loaders; (C) ValidateMetablock against a reference validator (one predicate per format rule) on conforming bases and ~64 single-rule variants (malformed rules also in front of and between well-formed ones) (plus 17 near-hexadecimal strings - sign, 0x, blanks, underscore, full-width digits - at every place where a hexadecimal string is demanded) each for layouts (all three key maps) and links. " +
+		Rule: "(A) round trip: seeded links/layouts (hostile strings, nested values, constraints, CA maps; a fifth with absent collections, which the library writes as null; every 41st of several hundred KiB: 1500 products / 2500 rules) x wrapper x 0-2 signatures (legacy: one with certificate), Dump -> LoadMetadata / Metablock.Load: wrapper recognised, payload, signatures and signature validity preserved; (B) labelled single-point corruptions of the dumped JSON: drop/null/retype of the wrapper parts, wrong payload types, undecodable payload, a complete document followed by something (inside the envelope payload and behind the file), truncations, unknown/odd type markers, drop/rename of every required top-level member, an unknown member at every fixed-schema level, a renamed member at every nested fixed-schema level, a value of another JSON type at every schema-typed node - all must be refused by both loaders; (C) ValidateMetablock against a reference validator (one predicate per format rule) on conforming bases and ~64 single-rule variants (malformed rules also in front of and between well-formed ones; well-formed rules whose operands are spelled like keywords) (plus 17 near-hexadecimal strings - sign, 0x, blanks, underscore, full-width digits - at every place where a hexadecimal string is demanded) each for layouts (all three key maps) and links. " +
 			"non-trivial = the corruption changed the parsed JSON / the variant differs from the base; distinct = (kind, wrapper, loader, corruption label) resp. hash of the value",
 		Assumptions: []string{
 			"an expiry with fractional seconds (2030-01-01T00:00:00.5Z) is not judged: it is a parseable UTC timestamp, although not of the YYYY-MM-DDThh:mm:ssZ shape",
